@@ -11,6 +11,17 @@ Theorem C29_width_floor_sqrt : forall v, 0 < v ->
 Proof. exact (fun v Hv => conj (width_sqrt v Hv) (width_floor_sqrt v Hv)). Qed.
 Print Assumptions C29_width_floor_sqrt.
 
+(* just below, at and just above every perfect square; constant between consecutive squares
+   (the Go side of the correspondence evaluates exactly these points with int(math.Sqrt(float64 n))) *)
+Theorem C29_width_around_squares : forall k, 1 <= k ->
+  width (k * k) = k /\ width (k * k + 1) = k /\ (2 <= k -> width (k * k - 1) = k - 1).
+Proof. exact width_around_squares. Qed.
+Print Assumptions C29_width_around_squares.
+
+Theorem C29_width_between_squares : forall k n, 1 <= k -> k * k <= n < (k + 1) * (k + 1) -> width n = k.
+Proof. exact width_between_squares. Qed.
+Print Assumptions C29_width_between_squares.
+
 Theorem C29_neighbor_sym : forall v a b, neighbor v a b = neighbor v b a.
 Proof. exact neighbor_sym. Qed.
 Print Assumptions C29_neighbor_sym.
